@@ -1254,6 +1254,11 @@ fn run_on_opt(term: &mut Term, case: &Case, from: usize, cfg: &Cfg, direct: bool
                 sh.rb = term.rb.clone();
                 if !term.rb.utf8 {
                     sh.exec(&Op::SelCharset("@".into()));
+                } else if term.rb_started {
+                    // the byte parser of the main terminal is past the start of its stream (where
+                    // one BOM is ignored); that is decoder state, not terminal state, so the
+                    // fresh terminal's parser is put past it too (BEL has no effect on a screen)
+                    sh.exec(&Op::FeedBytes(b"\x07".to_vec()));
                 }
                 if !term.rp.utf8 {
                     sh.exec(&Op::SetUtf8(false));
